@@ -330,6 +330,31 @@ theorem dictGet_settingsStep_true (d : List (Bytes × Bool)) (k : Bytes) (o : Op
     · simp only [settingsStep, dictGet_dictSet]; split <;> simp [h]
   | _ => simpa [settingsStep] using h
 
+theorem dictGet_settingsStep_plain (d : List (Bytes × Bool)) (k : Bytes) (o : Op)
+    (h : dictGet d k ≠ some true) (hno : o ≠ .setAnonymity k true)
+    (hov : ∀ cid, o = .overlay cid true → overlayPrefix cid ≠ k) :
+    dictGet (settingsStep d o) k ≠ some true := by
+  cases o with
+  | setAnonymity k' v =>
+    simp only [settingsStep, dictGet_dictSet]
+    by_cases hk : k' = k
+    · subst hk; cases v
+      · simp
+      · exact absurd rfl hno
+    · simpa [hk] using h
+  | attachCommunity pfx =>
+    simp only [settingsStep, dictGet_dictSet]
+    by_cases hk : pfx = k
+    · simp [hk]
+    · simpa [hk] using h
+  | overlay cid b =>
+    cases b
+    · simpa [settingsStep] using h
+    · have := hov cid rfl
+      simp only [settingsStep, dictGet_dictSet]
+      simpa [this] using h
+  | _ => simpa [settingsStep] using h
+
 theorem runState_keeps_anonymized (ops : List Op) (s : State) (k : Bytes)
     (h : dictGet s.settings k = some true)
     (hno : ∀ o ∈ ops, o ≠ .setAnonymity k false ∧ o ≠ .attachCommunity k) :
